@@ -28,6 +28,8 @@ pub enum Act {
     SnapHold(Vec<(&'static str, &'static str)>),
     /// one forward scan over a keyspace
     Scan(&'static str),
+    /// `len()` of a keyspace (a scan that only counts): must count whole batches only
+    Len(&'static str),
     Rotate(&'static str),
     Clear(&'static str),
     CreateKs(&'static str),
@@ -240,6 +242,10 @@ impl Body for VisBody {
                                 }
                                 seen.lock().unwrap().push((tid, "scan".into(), out));
                             }
+                            Act::Len(ks) => {
+                                let n = kss[ks].len().map_err(|e| format!("{e:?}"))?;
+                                seen.lock().unwrap().push((tid, "len".into(), vec![(ks.to_string(), "#len".into(), n.to_string())]));
+                            }
                             Act::Rotate(ks) => {
                                 kss[ks].rotate_memtable().map_err(|e| format!("{e:?}"))?;
                             }
@@ -391,7 +397,39 @@ impl Body for VisBody {
             }
             let seen = seen.lock().unwrap().clone();
             let mut desc = vec![];
+            // len(): the count must be the initial count plus, per writer, the net effect of a prefix of its groups
+            for (tid, what, obs) in seen.iter().filter(|s| s.1 == "len") {
+                let Some((ks, _, n)) = obs.first() else { continue };
+                let n0 = initial.keys().filter(|(k, _)| k == ks).count() as i64;
+                let mut allowed: std::collections::BTreeSet<i64> = [n0].into_iter().collect();
+                let writers: std::collections::BTreeSet<usize> = groups.iter().map(|g| g.0).collect();
+                for w in writers {
+                    let mut present: std::collections::BTreeSet<String> = initial.keys().filter(|(k, _)| k == ks).map(|(_, key)| key.clone()).collect();
+                    let base = present.len() as i64;
+                    let mut deltas = vec![0i64];
+                    for (_, items) in groups.iter().filter(|g| g.0 == w) {
+                        for (iks, k, v) in items {
+                            if iks == ks {
+                                if *v == "-" {
+                                    present.remove(*k);
+                                } else {
+                                    present.insert(k.to_string());
+                                }
+                            }
+                        }
+                        deltas.push(present.len() as i64 - base);
+                    }
+                    allowed = allowed.iter().flat_map(|a| deltas.iter().map(move |d| a + d)).collect();
+                }
+                let got: i64 = n.parse().unwrap_or(-1);
+                if !allowed.contains(&got) {
+                    return Err(Violation::new("torn_batch", format!("T{tid} {what}({ks}) = {got}, but whole batches only allow {allowed:?} (half of a batch was counted)")));
+                }
+            }
             for (tid, what, obs) in &seen {
+                if what == "len" {
+                    continue;
+                }
                 let get = |ks: &str, k: &str| -> Option<String> {
                     if what == "scan" {
                         // a scan lists present keys of one keyspace; absence = "-"
@@ -488,6 +526,7 @@ pub fn bodies(tier: &str) -> Vec<BodySpec> {
     v.push(b(VisBody { name: "2 batch writers|snapshot [focus:commit-path]", kind: Kind::Plain, workers: 0, keyspaces: vec!["x", "y"], initial: init.clone(), prerotate: vec![], threads: vec![vec![Batch(vec![("x", "a", "1"), ("y", "b", "1")])], vec![Batch(vec![("x", "b", "1"), ("y", "a", "1")])], reader.clone()], finals: Finals::None }, if q { 2 } else { 3 }, if q { 5.0 } else { 300.0 }));
     v.push(b(VisBody { name: "sw-tx same key in two keyspaces|snapshot", kind: Kind::Sw, workers: 0, keyspaces: vec!["x", "y"], initial: init.clone(), prerotate: vec![], threads: vec![vec![Tx(vec![("x", "a", "1"), ("y", "a", "1")])], vec![SnapRead(vec![("x", "a"), ("y", "a")])]], finals: Finals::None }, 1, if q { 3.0 } else { 60.0 }));
     v.push(b(VisBody { name: "occ-tx same key in two keyspaces|snapshot", kind: Kind::Occ, workers: 0, keyspaces: vec!["x", "y"], initial: init.clone(), prerotate: vec![], threads: vec![vec![Tx(vec![("x", "b", "1"), ("y", "b", "1")])], vec![SnapRead(vec![("x", "b"), ("y", "b")])]], finals: Finals::None }, 1, if q { 3.0 } else { 60.0 }));
+    v.push(b(VisBody { name: "batch of new keys|len|insert-other", kind: Kind::Plain, workers: 0, keyspaces: vec!["x", "z"], initial: vec![("x", "a", "0")], prerotate: vec![], threads: vec![vec![Batch(vec![("x", "ab", "1"), ("x", "b", "1")])], vec![Len("x"), Len("x")], vec![Ins(("z", "a", "9"))]], finals: Finals::None }, 2, if q { 3.0 } else { 120.0 }));
     v.push(b(VisBody { name: "batch|snapshot|ingest-into-empty-z", kind: Kind::Plain, workers: 0, keyspaces: vec!["x", "y", "z"], initial: init.clone(), prerotate: vec![], threads: vec![vec![Batch(vec![("x", "a", "1"), ("y", "b", "1")])], reader.clone(), vec![Ingest("z", vec![("a", "5")])]], finals: Finals::None }, 2, if q { 4.0 } else { 200.0 }));
     v.push(b(VisBody { name: "batch|snapshot [reopened]", kind: Kind::Plain, workers: 0, keyspaces: vec!["x", "y"], initial: init.clone(), prerotate: vec![], threads: vec![writer.clone(), reader.clone()], finals: Finals::None }, if q { 2 } else { 3 }, if q { 3.0 } else { 120.0 }));
     v.push(b(VisBody { name: "sw-tx|snapshot [reopened]", kind: Kind::Sw, workers: 0, keyspaces: vec!["x", "y"], initial: init.clone(), prerotate: vec![], threads: vec![vec![Tx(vec![("x", "a", "1"), ("y", "b", "1")])], reader.clone()], finals: Finals::None }, 2, if q { 2.0 } else { 60.0 }));
